@@ -52,6 +52,14 @@ def _cases(rng, tier):
         h2 = gen.ngon(lat - 0.4 * R, lng + 0.4 * R / math.cos(lat), 0.07 * R, 4, None)
         loops = [[(a, gen.norm_lng(b)) for a, b in lp] for lp in (outer, h1, h2)]
         out.append((loops, lat, lng, R, rng.choice([3, 4]), "two-holes"))
+    # polygons a few to twenty cells across at resolutions 13-15 (edges of metres to centimetres), few and many vertices
+    for k in range(9 if tier == "quick" else 90):
+        res = (13, 14, 15)[k % 3]
+        lat, lng = rng.uniform(-1.2, 1.2), rng.uniform(-3.0, 3.0)
+        R = rng.choice([rng.uniform(4, 16), rng.uniform(20, 50)]) * EDGE[res]
+        nv = rng.choice([3, 4, 7, 60])
+        outer = gen.ngon(lat, lng, R, nv, rng, jitter=0.15 if nv < 60 else 0.0, phase=rng.uniform(0, 1))
+        out.append(([[(a_, gen.norm_lng(b_)) for a_, b_ in outer]], lat, lng, R, res, "small-fine"))
     # holes that nearly wall off part of the interior: a C-shaped hole (square ring with a slit narrower than a cell)
     # around a pocket that belongs to the polygon; the pocket is connected to the rest only through the slit
     for k in range(4 if tier == "quick" else 40):
@@ -127,7 +135,7 @@ def candidates(ctx, lat, lng, radius, res, nb):
     if not ok(a):
         return None
     k = int(radius * 1.6 / EDGE[res]) + 3
-    if k > 45:
+    if k > (45 if nb is None else nb):
         return None
     d = ctx.c([f"disk {a.split()[1]} {k}"], tag="cand2")[0]
     if not ok(d):
@@ -147,7 +155,7 @@ def evaluate(ctx, rng, tier, focus, budget, broken):
         if kind.startswith("wide") or kind == "large":
             cand = all_cells(ctx, res)
         else:
-            cand = candidates(ctx, lat, lng, radius, res, None)
+            cand = candidates(ctx, lat, lng, radius, res, 90 if kind == "small-fine" else None)
         if cand is None:
             skipped[kind] = skipped.get(kind, 0) + 1
             continue
